@@ -162,6 +162,18 @@ func Ite(c, a, b Term) Term {
 		if a.S == "false" && b.S == "true" {
 			return Not(c)
 		}
+		if b.S == "false" {
+			return And(c, a)
+		}
+		if b.S == "true" {
+			return Implies(c, a)
+		}
+		if a.S == "true" {
+			return Or(c, b)
+		}
+		if a.S == "false" {
+			return And(Not(c), b)
+		}
 	}
 	return Term{"(ite " + c.S + " " + a.S + " " + b.S + ")", a.Sort}
 }
@@ -236,6 +248,7 @@ type Universe struct {
 	order []Sort
 	byTyp map[string]Sort // types.Type string -> sort
 	shifts map[Sort]bool  // element sorts for which shift_ functions are used
+	useHash bool
 }
 
 func NewUniverse() *Universe {
@@ -357,6 +370,12 @@ func (u *Universe) Decls() string {
 	for _, s := range u.order {
 		b.WriteString(u.dts[s].Decl)
 		b.WriteByte('\n')
+	}
+	b.WriteString("(declare-const hash_zero Hash8)\n")
+	if u.useHash {
+		b.WriteString("(declare-fun hash_set (Hash8 Int Int) Hash8)\n(declare-fun hash_get (Hash8 Int) Int)\n")
+		b.WriteString("(assert (forall ((h Hash8) (i Int) (b Int)) (! (= (hash_get (hash_set h i b) i) b) :pattern ((hash_set h i b)))))\n")
+		b.WriteString("(assert (forall ((h Hash8) (i Int) (j Int) (b Int)) (! (=> (not (= i j)) (= (hash_get (hash_set h i b) j) (hash_get h j))) :pattern ((hash_get (hash_set h i b) j)))))\n")
 	}
 	var es []string
 	for e := range u.shifts {
